@@ -12,6 +12,8 @@ Tie:          real Logger with csv/json/log/stdout writers on random record/reco
                   every non-excluded key present in every configured output, record_mean = mean, dump clears.
 Known findings reproduced from fixed corpus inputs and classified by precise predicates in the generic stream:
   csv-multiline-value-corrupted-by-header-rewrite (F5), exclude-stdout-also-hides-from-log-file (F6).
+Build round 5: Model/HumanFormat.v = the whole HumanOutputFormat.write (sort, tags, truncation, refusal, layout) + a reader; harness/c20_human.py runs the
+              byte-exact correspondence of the printed table (kind "hfmt").
 """
 from __future__ import annotations
 
@@ -27,6 +29,7 @@ from fractions import Fraction
 
 from harness import common
 from harness.common import Check, coq_list
+from harness import c20_human as HF
 
 REGISTRY = dict(
     text=("Proof (unbounded): record stores value and exclusion tuple, record_mean (update regenerated from logger.py) yields the arithmetic mean of any number of values, dump hands "
@@ -39,7 +42,8 @@ REGISTRY = dict(
           "Tie: fragment translator + byte-exact correspondence of progress.csv + per-writer key sets + read_csv/read_json oracle."),
     note=("Trusted: Coq 8.16.1 kernel (vm_compute, no native_compute), translate/py2coq.py + specs/logger.py, harness/c20.py, Python/numpy/pandas. "
           "Not verified: Python's str() of numbers (rendered text is an input of the CSV model), pandas' tokenizer and type inference (strings pandas would coerce - empty, NA-like, "
-          "numeric-looking, booleans - and the comment character '#' are excluded from the generator), the JSON writer (oracle only), tensorboard output, float rounding of record_mean "
+          "numeric-looking, booleans - and the comment character '#' are excluded from the generator), the JSON writer (oracle only), the value formatting of the human writer ('%-8.3g' / str(): "
+          "an input of Model.HumanFormat; its max_length >= 3), tensorboard output, float rounding of record_mean "
           "(1e-9). A carriage return is modelled as a line break (universal newlines); CR LF pairs are not generated. All C20 theorems are closed under the global context."),
     technique="machine-checked proof in Coq (state machine, character-level printer/reader induction) + regenerated-fragment interface lemmas + byte-exact differential correspondence",
 )
@@ -48,7 +52,7 @@ COV_TARGETS = {"stable_baselines3/common/logger.py": ["KVWriter", "SeqWriter", "
                                                        "make_output_format", "Logger", "configure", "read_json", "read_csv"]}
 
 HEADER = """From Coq Require Import List QArith ZArith Bool Ascii String.
-From SB3V Require Import Model.Csv Model.Logger.
+From SB3V Require Import Model.Csv Model.Logger Model.HumanFormat.
 Import ListNotations.
 Definition T (s : string) : text := list_ascii_of_string s.
 """
@@ -724,6 +728,8 @@ def mean_on_string(case):
 def nontrivial(case, impl):
     if "raised" in impl or "configure" in impl:
         return False
+    if case["kind"] == "hfmt":
+        return HF.nontrivial_hfmt(case, impl)
     if case["kind"] == "human":
         return any(e["raised"] for e in impl["events"]) or any(op[0] == "level" for op in case["ops"])
     extras = [d["extra"] for d in impl["dumps"]]
@@ -732,14 +738,14 @@ def nontrivial(case, impl):
     return later_new and len(set(keysets)) >= 2 and len(case["ops"]) >= 6
 
 
-KNOWN = {"csv-multiline-value-corrupted-by-header-rewrite", "exclude-stdout-also-hides-from-log-file", "csv-dump-without-values-misaligns-rows"}
+KNOWN = {"csv-multiline-value-corrupted-by-header-rewrite", "exclude-stdout-also-hides-from-log-file", "csv-dump-without-values-misaligns-rows", HF.SLASH_KEY}
 
 
 def run_cases(chk, cases):
     impls = []
     for c in cases:
         try:
-            impls.append(run_configure(c) if c["kind"] == "configure" else run_human(c) if c["kind"] == "human" else run_impl(c))
+            impls.append(run_configure(c) if c["kind"] == "configure" else HF.run_hfmt(c) if c["kind"] == "hfmt" else run_human(c) if c["kind"] == "human" else run_impl(c))
         except Exception as e:  # noqa: BLE001 - the implementation raised on the history: reported, the check goes on
             import traceback
 
@@ -747,7 +753,7 @@ def run_cases(chk, cases):
     exprs = []
     for c, im in zip(cases, impls):
         try:
-            exprs += ["true"] if ("raised" in im or "configure" in im) else exprs_human(c, im) if c["kind"] == "human" else model_exprs(c, im)
+            exprs += ["true"] if ("raised" in im or "configure" in im) else HF.exprs_hfmt(c, im, coq_text, coq_list) if c["kind"] == "hfmt" else exprs_human(c, im) if c["kind"] == "human" else model_exprs(c, im)
         except Exception as ex:  # noqa: BLE001 - the recorded state cannot be turned into a model query (NaN, unexpected type, ...)
             import traceback
 
@@ -765,7 +771,7 @@ def run_cases(chk, cases):
             results.append([("oracle-configure", k) for k, ok in im["configure"].items() if not ok])
         else:
             try:
-                results.append(compare_human(c, im, [v]) if c["kind"] == "human" else compare(c, im, [v]))
+                results.append(HF.compare_hfmt(c, im, [v]) if c["kind"] == "hfmt" else compare_human(c, im, [v]) if c["kind"] == "human" else compare(c, im, [v]))
             except Exception as e:  # noqa: BLE001 - the files / values cannot even be decoded
                 import traceback
 
@@ -788,15 +794,23 @@ def main():
     n_corpus = len(cases)
     for i in range(n_cases):
         cases.append(gen_case(chk.rng, i))
+    # build round 5: whole-writer sub-stream of HumanOutputFormat.write (byte-exact against Model.HumanFormat), generated AFTER the older streams
+    n_hfmt = int(os.environ.get("VERIF_NHFMT", 0)) or (560 if chk.tier == "quick" else 4000)
+    for i in range(n_hfmt):
+        cases.append(HF.gen_hfmt_case(chk.rng, i))
     impls, results = run_cases(chk, cases)
     distinct = set()
-    hist = {"plain": 0, "breaks": 0, "human": 0, "corpus": n_corpus, "formats": {}, "dumps": {}, "with_record_mean": 0, "with_exclusions": 0, "f5_class": 0, "f6_class": 0}
+    hist = {"plain": 0, "breaks": 0, "human": 0, "hfmt": 0, "hfmt_refused": 0, "hfmt_empty": 0, "hfmt_truncated_key": 0, "corpus": n_corpus, "formats": {}, "dumps": {}, "with_record_mean": 0, "with_exclusions": 0, "f5_class": 0, "f6_class": 0}
     reported, queue = set(), []
     for idx, (c, im, probs) in enumerate(zip(cases, impls, results)):
         if ("raised" in im or "configure" in im) and not probs:
             continue
         if idx >= n_corpus:
             hist[c["kind"]] += 1
+        if c["kind"] == "hfmt":
+            hist["hfmt_refused"] += int(im["refused"])
+            hist["hfmt_empty"] += int(not im["refused"] and not im["text"])
+            hist["hfmt_truncated_key"] += int("..." in im["text"])
         fk = ",".join(c["formats"])
         hist["formats"][fk] = hist["formats"].get(fk, 0) + 1
         nd = str(sum(1 for op in c["ops"] if op[0] == "dump"))
@@ -834,9 +848,17 @@ def main():
                             "Not generated (precise predicate, see assumptions): dumps without any csv-visible value before the first column or with a single final column. "
                             "Every 10th history: log-level sub-stream (set_level, debug/info/warn/error/log, keys longer than max_length=36, colliding truncations, dumps while DISABLED) "
                             "on the log and stdout writers. Non-trivial = a later dump adds a column, >= 2 distinct key sets, >= 6 operations (log-level sub-stream: a level change or a "
-                            "refused collision). distinct = distinct full case description")
+                            "refused collision). distinct = distinct full case description. Build round 5: AFTER these streams, 560 (thorough 4000) single-dump cases through the real "
+                            "Logger.record/dump into HumanOutputFormat(file, max_length in 3..36): 0-9 keys (lengths around max_length-1..max_length+4 counting the 3-space indent, keys equal up "
+                            "to the cut, tags a/ ab/ -a/ a/b/c/ and tags longer than max_length, empty tag /x, trailing slash, bare '/', slash-led keys that CONTAIN an earlier tag, plain keys a "
+                            "long tag is cut to), int / float / np.float64 / np.float32 / string values (also with '|'), exclusions; the printed bytes, the refusal (ValueError) and the empty "
+                            "case are compared with Model.HumanFormat.write_lines (first differing byte decided inside Coq); non-trivial there = refused, or >= 3 keys with one near the cut")
     chk.notes["input_distribution"] = hist
     chk.notes["corpus_cases"] = n_corpus
+    chk.notes["human_writer_stream"] = {"cases": hist["hfmt"], "refused_with_ValueError": hist["hfmt_refused"], "nothing_visible": hist["hfmt_empty"],
+                                        "tables_with_a_truncated_cell": hist["hfmt_truncated_key"],
+                                        "compared": "bytes of the file vs Model.HumanFormat (write_lines / file_text), refusal, model reader on the model table; oracle: equal line widths <= 2*max_length+7, "
+                                                    "rows = visible keys + distinct tags, every value shown, untagged short keys verbatim, a refused dump writes and clears nothing"}
     chk.add_samples([{"kind": cases[i]["kind"], "formats": cases[i]["formats"], "ops": cases[i]["ops"][:12]} for i in (n_corpus, n_corpus + 4) if i < len(cases)])
     chk.assumptions += [
         "strings pandas would coerce are excluded from the generator: empty, NA-like sentinels (NA, NaN, null, None, n/a, ...), numeric-looking, booleans, inf; also the comment character '#' "
